@@ -110,6 +110,7 @@ def community_louvain(W, gamma=1, ci=None, B='modularity', seed=None):
         optimized q-statistic (modularity only)
     '''
     rng = get_rng(seed)
+    W = np.array(W, dtype=float)  # products of integer strengths overflow
     n = len(W)
     s = np.sum(W)
 
@@ -1106,6 +1107,7 @@ def modularity_louvain_und(W, gamma=1, hierarchy=False, seed=None):
     '''
     rng = get_rng(seed)
 
+    W = np.array(W, dtype=float)  # products of integer degrees overflow
     n = len(W)  # number of nodes
     s = np.sum(W)  # weight of edges
     h = 0  # hierarchy index
